@@ -2383,3 +2383,49 @@ func c06R11(c *Ctx, r *Report) {
 	r.Check(found, rule, fn.Name(), "a constant's initialiser is checked for sharing the storage of a variable", c.pos(pos),
 		"a constant may be bound to the handle of a mutable dynamic array or map: `let m := { \"a\" => 1 } as map[str]i32; const cm := m; m[\"a\"] = 5; io::Println(cm[\"a\"] ?? -1);` prints 5 — the value read through the constant changed")
 }
+
+// ---- C06.R12: the root of a place is found through casts ------------------------------------------------------------
+
+func init() {
+	lateInits = append(lateInits, func() {
+		props["C06"].Quick = append(props["C06"].Quick, c06R12)
+		props["C06"].Explanation += " (R12) rootIdentifierOfPlace, by which checkMutability finds the constant or read-only variable an expression belongs to, looks through selections, indexing, parentheses and casts: each of them is lowered without a copy of the operand."
+	})
+}
+
+func c06R12(c *Ctx, r *Report) {
+	const rule = "C06.R12"
+	r.Describe(rule, "typechecker.rootIdentifierOfPlace: its type switch has a clause for *ast.SelectorExpr, *ast.IndexExpr, *ast.ParenExpr and *ast.CastExpr, each of which continues with the operand (`expr = e.X`)")
+	fn := c.LookupFn(pkgTC, "rootIdentifierOfPlace")
+	if !r.Anchor(rule, fn != nil && fn.Decl.Body != nil, "typechecker.rootIdentifierOfPlace") {
+		return
+	}
+	info := fn.Info()
+	through := map[string]bool{}
+	ast.Inspect(fn.Decl.Body, func(x ast.Node) bool {
+		cc, ok := x.(*ast.CaseClause)
+		if !ok {
+			return true
+		}
+		descends := false
+		for _, st := range cc.Body {
+			if as, ok := st.(*ast.AssignStmt); ok && len(as.Rhs) == 1 {
+				if sel, ok := ast.Unparen(as.Rhs[0]).(*ast.SelectorExpr); ok && sel.Sel.Name == "X" {
+					descends = true
+				}
+			}
+		}
+		if descends {
+			for _, t := range caseTypes(info, cc) {
+				if nt := namedOf(t); nt != nil {
+					through[nt.Obj().Name()] = true
+				}
+			}
+		}
+		return true
+	})
+	for _, want := range []string{"SelectorExpr", "IndexExpr", "ParenExpr", "CastExpr"} {
+		r.Check(through[want], rule, fn.Name(), "looks through "+want, c.pos(fn.Decl.Pos()),
+			"an expression of this form is not traced back to the variable it addresses, so the immutability of that variable is not seen: `const c := { .X = 1 } as P; (c as P).inc(); io::Println(c.X);` with a `&'P` receiver is accepted and prints 2 (the cast is lowered as the address of c)")
+	}
+}
